@@ -3,6 +3,8 @@ package rules
 import (
 	"fmt"
 	"go/token"
+	"go/types"
+	"sort"
 	"strings"
 
 	"golang.org/x/tools/go/ssa"
@@ -60,6 +62,7 @@ func init() {
 			"R7 a nil return happens only after the old key was destroyed or the previous primary version name was found empty. R5 Bootstrap: Finalize only after both signing steps succeeded, nil return ⇒ Finalize:ok. R6 the newly created key (operand derived from CreateNewSigningKeyVersion) is never destroyed once Finalize succeeded. R8 (shared with C11.R7) the storage-backed authority's certificate upload returns success after the gate only where the key version's manifest entry was found or appended, so a rotation retried after a fault cannot finalize a primary key that has no listed certificate. " +
 			"Every fault position of the property's quantifier is the :fail edge of one of the tracked calls; crash points between calls are covered by R1's ordering. " +
 			"R9 (= C11.R1/R2/R6) Finalize of the storage-backed authority writes the manifest last and never after a failed upload, and storage/ops.WriteFile returns nil only after Writer, Write and Close all succeeded — otherwise rotate.Key would destroy the old key although the new primary was not durably recorded. " +
+			"R10 context continuity: in the call closure of rotate.Key / rotate.Bootstrap no call receives a context rooted at context.Background()/TODO() (the operator's options, e.g. overwrite permission for the leftovers of a failed attempt, travel in the context). " +
 			"Not covered: that the surviving state works (reload + sign), the later fault-free rotation, KMS/HSM behaviour.",
 		Assumptions: []string{"go/types, go/ssa, VTA call graph", "multierr.Combine/Append return nil iff all arguments are nil", "fmt.Errorf/errors.New return non-nil", "interface methods of ManagerInterface/CertificateAuthority are opaque events"},
 		Run:         runC10,
@@ -325,5 +328,103 @@ func runC10(c *Ctx) {
 			c.S.Floor("R0", "signing primitive calls reached from rotate.Bootstrap", 1, counts[c10SignPrim])
 			c.S.Floor("R0", "nil-error exits of rotate.Bootstrap", 1, nilExits)
 		}
+	}
+	// R10: the operator's options travel in the context. Every context handed on inside the rotation's call closure
+	// is the caller's context or derived from it with context.With…; a fresh root context (context.Background /
+	// context.TODO) would silently drop them (for instance the permission to overwrite the leftovers of a failed
+	// attempt, on which the "later fault-free rotation succeeds" clause rests).
+	c.contextContinuity("R10", []*ssa.Function{key, boot})
+}
+
+// contextContinuity: in the repo call closure of roots, no call receives a context.Context that originates from
+// context.Background() / context.TODO().
+func (c *Ctx) contextContinuity(rule string, roots []*ssa.Function) {
+	isCtx := func(t types.Type) bool { return namedIs(t, "context", "Context") }
+	clo := c.reachable(roots, nil)
+	var fns []*ssa.Function
+	for f := range clo {
+		if f != nil && f.Blocks != nil && !c.isTestFunc(f) && !isTestingPkg(load.RelPkg(f)) {
+			fns = append(fns, f)
+		}
+	}
+	sort.Slice(fns, func(i, j int) bool { return fns[i].Pos() < fns[j].Pos() })
+	n, bad := 0, 0
+	var fresh func(v ssa.Value, d int, seen map[ssa.Value]bool) *ssa.Call
+	fresh = func(v ssa.Value, d int, seen map[ssa.Value]bool) *ssa.Call {
+		if v == nil || d > 8 || seen[v] {
+			return nil
+		}
+		seen[v] = true
+		switch x := v.(type) {
+		case *ssa.Call:
+			if cal := x.Call.StaticCallee(); cal != nil && cal.Pkg != nil && cal.Pkg.Pkg.Path() == "context" {
+				switch cal.Name() {
+				case "Background", "TODO":
+					return x
+				}
+				if len(x.Call.Args) > 0 && isCtx(x.Call.Args[0].Type()) {
+					return fresh(x.Call.Args[0], d+1, seen)
+				}
+				return nil
+			}
+			// a repo helper that builds the context: look at what it returns
+			if cal := x.Call.StaticCallee(); cal != nil && cal.Blocks != nil && load.FuncInRepo(cal) {
+				for _, b := range cal.Blocks {
+					if ret, ok := b.Instrs[len(b.Instrs)-1].(*ssa.Return); ok {
+						for _, r := range ret.Results {
+							if isCtx(r.Type()) {
+								if k := fresh(r, d+1, seen); k != nil {
+									return k
+								}
+							}
+						}
+					}
+				}
+			}
+		case *ssa.Extract:
+			return fresh(x.Tuple, d+1, seen)
+		case *ssa.Phi:
+			for _, e := range x.Edges {
+				if k := fresh(e, d+1, seen); k != nil {
+					return k
+				}
+			}
+		case *ssa.MakeInterface:
+			return fresh(x.X, d+1, seen)
+		case *ssa.ChangeInterface:
+			return fresh(x.X, d+1, seen)
+		case *ssa.UnOp:
+			if al, ok := x.X.(*ssa.Alloc); ok {
+				for _, ref := range *al.Referrers() {
+					if st, ok := ref.(*ssa.Store); ok && st.Addr == al {
+						if k := fresh(st.Val, d+1, seen); k != nil {
+							return k
+						}
+					}
+				}
+			}
+		}
+		return nil
+	}
+	for _, f := range fns {
+		for _, call := range callsIn(f, func(ssa.CallInstruction) bool { return true }) {
+			if cal := call.Common().StaticCallee(); cal != nil && cal.Pkg != nil && cal.Pkg.Pkg.Path() == "context" {
+				continue
+			}
+			for _, a := range call.Common().Args {
+				if !isCtx(a.Type()) {
+					continue
+				}
+				n++
+				if k := fresh(a, 0, map[ssa.Value]bool{}); k != nil {
+					bad++
+					c.S.Bad(rule, load.FuncName(f)+"→"+callName(call)+":context", c.pos(call.Pos()), "the context handed to this call starts from "+callName(k)+" ("+c.pos(k.Pos())+") instead of the caller's context: options carried by the context (overwrite permission, output settings, deadlines) are dropped for everything below")
+				}
+			}
+		}
+	}
+	c.S.Count("context_arguments_examined", n)
+	if bad == 0 {
+		c.S.OK(rule, "rotation closure:context continuity", "", fmt.Sprintf("%d context arguments in %d functions, none rooted at context.Background/TODO", n, len(fns)), true)
 	}
 }
